@@ -13,16 +13,16 @@ import (
 )
 
 type Env struct {
-	c     *FnCtx
-	cur   *State
-	old   *State
-	vars  map[string]*Val
-	pkg   *types.Package // scope for constants, type names and imports
-	frame *Frame         // for local variables by name (loop invariants); may be nil
-	log   *[]writeRec
-	snapBase *State         // state whose lock snapshots are used (nested at_lock inside at_unlock)
-	cellState *State        // state used for local variables (at_lock/at_unlock keep current locals)
-	oldVars map[string]*Val // parameter entry values, used inside old() and as a fallback in body mode
+	c         *FnCtx
+	cur       *State
+	old       *State
+	vars      map[string]*Val
+	pkg       *types.Package // scope for constants, type names and imports
+	frame     *Frame         // for local variables by name (loop invariants); may be nil
+	log       *[]writeRec
+	snapBase  *State          // state whose lock snapshots are used (nested at_lock inside at_unlock)
+	cellState *State          // state used for local variables (at_lock/at_unlock keep current locals)
+	oldVars   map[string]*Val // parameter entry values, used inside old() and as a fallback in body mode
 }
 
 func (e *Env) with(vars map[string]*Val) *Env {
@@ -522,6 +522,26 @@ func (env *Env) evalCall(e *Expr) *Val {
 		if len(e.Args) == 1 {
 			return scalar(types.Typ[types.String], env.intTerm(e.Args[0]))
 		}
+	case "iterfresh": // iterfresh(x): x was allocated during the current iteration of the innermost enclosing loop
+		if env.frame == nil || env.frame.curBlock == nil {
+			efail("iterfresh is only available in clauses inside a loop body")
+		}
+		var best *ssa.BasicBlock
+		for h, blocks := range env.frame.cfg.loopOf {
+			if blocks[env.frame.curBlock] && env.frame.loopAc[h] != nil {
+				if best == nil || len(blocks) < len(env.frame.cfg.loopOf[best]) {
+					best = h
+				}
+			}
+		}
+		if best == nil {
+			if env.c.dry > 0 {
+				return mathBool(True) // dry run of a loop body (computing its write set): no obligations are generated
+			}
+			efail("iterfresh used outside a loop")
+		}
+		v := env.eval(e.Args[0])
+		return mathBool(Le(env.frame.loopAc[best], identity(v)))
 	case "tagof": // dynamic type tag of an interface value, as an integer (0 for nil)
 		v := env.eval(e.Args[0])
 		if v.K != VIface {
